@@ -503,8 +503,78 @@ func cmpOK(c *Cmp, v float64) bool {
 
 // EvalMetric computes tumbling-bucket values for every bucket touching [evalFrom, evalTo).
 func EvalMetric(db *DB, m *MetricQuery, evalFrom, evalTo int64) ([]Point, error) {
+	a, err := evalMetric(db, m, evalFrom, evalTo, false)
+	if err != nil {
+		return nil, err
+	}
+	// the other reading: the unwrapped label stays part of the series identity
+	b, err := evalMetric(db, m, evalFrom, evalTo, true)
+	if err != nil {
+		return nil, err
+	}
+	if !samePoints(a, b, unwrapLabelOf(m)) {
+		return nil, &ErrProbe{"result depends on whether the unwrapped label stays in the series identity"}
+	}
+	return a, nil
+}
+
+func unwrapLabelOf(m *MetricQuery) string {
+	for _, s := range m.Log.Stages {
+		if s.Kind == "unwrap" {
+			return s.Val
+		}
+	}
+	return ""
+}
+
+func samePoints(a, b []Point, unw string) bool {
+	key := func(p Point) string {
+		l := map[string]string{}
+		for k, v := range p.Labels {
+			if k != unw {
+				l[k] = v
+			}
+		}
+		return CanonLabels(l) + "@" + strconv.FormatInt(p.Ts, 10)
+	}
+	am := map[string][]float64{}
+	for _, p := range a {
+		am[key(p)] = append(am[key(p)], p.Value)
+	}
+	bm := map[string][]float64{}
+	for _, p := range b {
+		bm[key(p)] = append(bm[key(p)], p.Value)
+	}
+	if len(am) != len(bm) {
+		return false
+	}
+	for k, av := range am {
+		bv := bm[k]
+		if len(av) != 1 || len(bv) != 1 {
+			return false
+		}
+		d := math.Abs(av[0] - bv[0])
+		if d > 1e-12 && d > 1e-9*math.Max(math.Abs(av[0]), math.Abs(bv[0])) {
+			return false
+		}
+	}
+	return true
+}
+
+func evalMetric(db *DB, m *MetricQuery, evalFrom, evalTo int64, keepUnwrapped bool) ([]Point, error) {
 	if m.Fn == "quantile_over_time" || m.Fn == "absent_over_time" {
 		return nil, &ErrProbe{m.Fn + " values are not judged"}
+	}
+	if m.Agg != "" && m.AggGrp == nil {
+		return nil, &ErrProbe{"vector aggregation without by/without (the statement speaks of the aggregation with its grouping)"}
+	}
+	for i, s := range m.Log.Stages {
+		if s.Kind == "unwrap" && s.Val == "" {
+			return nil, &ErrProbe{"unwrap_value (accepted by the grammar, not an unwrap of a label)"}
+		}
+		if s.Kind == "unwrap" && s.Val != "" && (m.RangeGrp == nil || !m.RangeGrp.By) && extractedBefore(m.Log.Stages[:i], s.Val) {
+			return nil, &ErrProbe{"unwrap of a per-line extracted label without a by() grouping: series identity is not settled"}
+		}
 	}
 	entries, err := EvalLog(db, &m.Log, evalFrom, evalTo)
 	if err != nil {
@@ -529,8 +599,8 @@ func EvalMetric(db *DB, m *MetricQuery, evalFrom, evalTo int64) ([]Point, error)
 	var order []string
 	for _, e := range entries {
 		l := groupLabels(e.Labels, m.RangeGrp)
-		if unwrapped != "" {
-			delete(l, unwrapped) // series identity does not include the unwrapped label (normalised on both sides)
+		if unwrapped != "" && !keepUnwrapped {
+			delete(l, unwrapped) // one reading: series identity does not include the unwrapped label
 		}
 		b := e.Ts / dur * dur
 		k := CanonLabels(l) + "@" + strconv.FormatInt(b, 10)
@@ -793,3 +863,24 @@ func execTemplate(tpl string, e *Entry) (string, error) {
 }
 
 var _ = time.Second
+
+// extractedBefore: is label l produced by an extraction stage among stages?
+func extractedBefore(stages []Stage, l string) bool {
+	for _, e := range stages {
+		switch e.Kind {
+		case "json", "logfmt":
+			return true
+		case "jsonp":
+			for _, p := range e.Params {
+				if p.A == l {
+					return true
+				}
+			}
+		case "regexp":
+			if strings.Contains(e.Val, "P<"+l+">") {
+				return true
+			}
+		}
+	}
+	return false
+}
